@@ -250,6 +250,16 @@ func main() {
 					out.Write(b)
 					out.WriteByte('\n')
 				}
+			} else if probe.Mode == "stalebuf" {
+				var sc StaleBufCase
+				if jerr := json.Unmarshal(line, &sc); jerr != nil {
+					fmt.Fprintln(out, `{"name":"?","note":"bad-case"}`)
+				} else {
+					r := runStaleBuf(sc)
+					b, _ := json.Marshal(r)
+					out.Write(b)
+					out.WriteByte('\n')
+				}
 			} else if probe.Mode == "fwstorm" {
 				var fc FwStormCase
 				if jerr := json.Unmarshal(line, &fc); jerr != nil {
